@@ -471,7 +471,10 @@ func (m *engineMon) afterOp(opLine string, pre *pokerface.GameState, err error) 
 		}
 		// (Raise(x) with x equal to the wager to match is carried out as a Call, reading I8)
 		isCall := op.act == "call" || (op.act == "raise" && op.x == pcw)
-		if d := st.CurrentWager - pcw; d > 0 && !isCall && (pcw == 0 || d >= m.lastRaise) {
+		// rule proved equal to the recorded minimum raise on all histories (Proofs/RaiseGhost.lean,
+		// RaiseRule.i8): a bet sets the size; any other non-call action sets it when it lifts the
+		// wager to match by at least the previous size
+		if d := st.CurrentWager - pcw; !isCall && (op.act == "bet" || (d > 0 && d >= m.lastRaise)) {
 			m.lastRaise = d
 		}
 		if st.Round == pre.Status.Round && st.CurrentWager < pcw {
